@@ -1,7 +1,7 @@
 """C11 -- re-keying is invisible to applications and really changes keys."""
 
 from simkit.refssh.observer import Observer
-from . import chanload
+from . import chanload, c11_closing
 
 ID = 'C11'
 NAME = 'rekey'
@@ -18,8 +18,13 @@ RULE = ('C07 multi-channel workload with per-side rekey_bytes drawn from '
         'Oracles: stream equality and EOF across rekeys, no stall; per '
         'endpoint between its KEXINIT and its NEWKEYS only types '
         '{1-4,7,21,30-49} are emitted; session id constant and equal on both '
-        'sides; (K, H) differ between epochs. Non-trivial = at least one '
-        're-exchange completed; distinct = (plan, schedule, trace) signature.')
+        'sides; (K, H) differ between epochs. A second population (15% of '
+        'the runs): one side writes, sees its send buffer empty and closes '
+        'the connection on an unbounded link, with rekey_bytes per side from '
+        '1 to never: the other application must have received all of it, '
+        'with or without an exchange in progress. Non-trivial = at least one '
+        're-exchange completed (second population: the writer got to close '
+        'the connection); distinct = (plan, schedule, trace) signature.')
 
 ASSUMPTIONS = [
     'simulated event loop admits exactly asyncio-legal executions',
@@ -34,7 +39,8 @@ REAL = ['asyncssh connection/kex/channel code of both endpoints', 'PyCA']
 STUB = ['event loop + clock', 'TCP', 'executor', 'OS randomness',
         'passive reference decoder on the wire (independent KDF/ciphers)']
 PROBES = ['rekeys_completed', 'simultaneous_kexinit', 'time_rekey',
-          'data_deferred_during_kex', 'rekey_per_packet', 'many_epochs']
+          'data_deferred_during_kex', 'rekey_per_packet', 'many_epochs',
+          'pop_closing', 'closed_during_kex', 'closed_outside_kex']
 
 ALLOWED_DURING_KEX = {1, 2, 3, 4, 7, 21} | set(range(30, 50))
 
@@ -55,6 +61,9 @@ CIPHER_SETS = [
 ]
 
 def valid_plan(plan):
+    if plan.get('pop') == 'closing':
+        return c11_closing.valid_plan(plan)
+
     st = plan.get('stall')
 
     if st is not None and (not 1 <= st['reads'] <= 5000 or
@@ -71,6 +80,11 @@ def valid_plan(plan):
 
 
 def gen_plan(rng):
+    if rng.chance(15):
+        # a second population: write, drain, close the connection
+        # (checks/c11_closing.py)
+        return c11_closing.gen_plan(rng)
+
     plan = chanload.gen_plan(rng, max_channels=3)
     mode = rng.below(4)
     thr = rng.choice([1, 64, 300, 1500, 6000, 20000])
@@ -107,6 +121,9 @@ def gen_plan(rng):
 
 
 def run_plan(plan, sched_seed=None, sched_replay=None):
+    if plan.get('pop') == 'closing':
+        return c11_closing.run_plan(plan, sched_seed, sched_replay)
+
     rk = plan['rekey']
     obs = []
 
